@@ -18,6 +18,10 @@ from common import DEVNAMES, Case, bg, device_classes, gen_case, widths
 ID = 'C05'
 LEAN_MODULES = ['Py65.Props.C05']
 NAMESPACES = ['Py65.Props.C05']
+# library helpers (CPython behaviour modelled in lean/Py65/Model/*Rt*.lean ...) that the generated code of these
+# modules calls, derived by scanning the Lean sources (harness/rtscan.py); validated against CPython on every run
+import rtcheck  # noqa: E402
+RT_HELPERS = rtcheck.helpers_for(LEAN_MODULES)
 LEVEL = 'proof'
 TRUSTED = ['Spec.Cpu (oracle of the closure lemmas)', 'translator py2lean, validated every run',
            'Python list / ObservableMemory semantics for in-range indices']
